@@ -404,7 +404,61 @@ func raceHMAC(c *Ctx) {
 	racePassFinish(c, total, "HMAC pool: 4..8 goroutines acquire/write/sum/put (SHA-1, SHA-256) and sign+check messages")
 }
 
+// ---- C10: the built-in collector with a caller-supplied clock ----
+
+type stepClock struct {
+	mu   sync.Mutex
+	now  time.Time
+	step time.Duration
+}
+
+func (c *stepClock) Now() time.Time {
+	c.mu.Lock()
+	defer c.mu.Unlock()
+	c.now = c.now.Add(c.step)
+	return c.now
+}
+
+// raceDefaultCollector runs the one component the scheduler harness replaces: the ticker collector. With a
+// clock that is far from wall time and jumps an hour per reading, a lost request must still be retransmitted
+// and timed out by the client's own ticks (deadlines and collection must use the same clock).
+func raceDefaultCollector(c *Ctx) {
+	iters := 5
+	if c.Thorough() {
+		iters = 40
+	}
+	var total int64
+	for it := 0; it < iters; it++ {
+		total++
+		conn := &raceConn{in: make(chan []byte, 4), closed: make(chan struct{})}
+		clk := &stepClock{now: time.Date(2100+it, 1, 1, 0, 0, 0, 0, time.UTC), step: time.Hour}
+		cl, err := stun.NewClient(conn, stun.WithClock(clk))
+		if err != nil {
+			c.Fail("NewClient: %v", err)
+		}
+		done := make(chan error, 1)
+		var got error
+		go func() {
+			done <- cl.Do(stun.MustBuild(stun.BindingRequest, stun.TransactionID), func(e stun.Event) { got = e.Error })
+		}()
+		select {
+		case derr := <-done:
+			if derr != nil || !errors.Is(got, stun.ErrTransactionTimeOut) {
+				c.Res.Violations = append(c.Res.Violations, raceViolation("default-collector/outcome", fmt.Sprintf("Do with the built-in collector and a custom clock: Do returned %v, handler got %v (want a timeout)", derr, got)))
+			}
+		case <-time.After(30 * time.Second):
+			c.Res.Violations = append(c.Res.Violations, raceViolation("default-collector/do-never-returns", "Do with the built-in collector and a caller-supplied clock (an hour per reading, year 2100) did not time out within 30 s of wall time: the collector does not collect on the client's clock"))
+			_ = cl.Close()
+			racePassFinish(c, total, "")
+			return
+		}
+		_ = cl.Close()
+	}
+	racePassFinish(c, total, "Client with the built-in ticker collector and a caller-supplied clock: a lost request is retransmitted and timed out")
+}
+
 func init() {
+	registry["C10"] = propImpl{Run: raceDefaultCollector, Replay: racePassReplay(raceDefaultCollector)}
 	registry["C14"] = propImpl{Run: raceAgent, Replay: racePassReplay(raceAgent)}
 	registry["C15"] = propImpl{Run: raceClient, Replay: racePassReplay(raceClient)}
 	registry["C18"] = propImpl{Run: raceHMAC, Replay: racePassReplay(raceHMAC)}
